@@ -36,7 +36,7 @@ try:
 finally:
     subprocess.run(["git", "-C", "/repo", "checkout", "--", "."], check=True)
     # the generated parts of the model must describe the restored sources again
-    subprocess.run(["python3", "tools/gen_lean.py", "grid", "anchors", "orbits", "cores", "attrs", "links3", "sews2", "sews3", "links3c", "alloc", "sews3c", "dispatch3", "dispatch2", "vins", "geom", "remesh", "vinsn", "collapse", "fan", "earclip", "griddesc", "gcross"], cwd="/verif", capture_output=True)
+    subprocess.run(["python3", "tools/gen_lean.py", "grid", "anchors", "orbits", "cores", "attrs", "links3", "sews2", "sews3", "links3c", "alloc", "sews3c", "dispatch3", "dispatch2", "vins", "geom", "remesh", "vinsn", "collapse", "fan", "earclip", "griddesc", "gcross", "pre"], cwd="/verif", capture_output=True)
 path = os.path.join(d, "detection.json")
 old = json.load(open(path)) if os.path.exists(path) else {}
 old.update(res)
